@@ -36,7 +36,10 @@ package ircserver
 // nickname ownership: a live session with a nickname owns it in the index (hence no two live sessions
 // have nicknames that are equal under the IRC case mapping)
 //@ pred wfOwner(i *IRCServer) = forall id robust.Id :: id in i.sessions && !i.sessions[id].deleted && i.sessions[id].Nick != "" ==> NickToLower(i.sessions[id].Nick) in i.nicks && i.nicks[NickToLower(i.sessions[id].Nick)] == i.sessions[id]
-//@ pred wfChannels(i *IRCServer) = i.channels != nil && (forall ch lcChan :: ch in i.channels ==> i.channels[ch] != nil && allocated(i.channels[ch]) && i.channels[ch].nicks != nil && allocated(i.channels[ch].nicks) && ChanToLower(i.channels[ch].name) == ch && bansOK(i.channels[ch]) && (forall n lcNick :: n in i.channels[ch].nicks ==> i.channels[ch].nicks[n] != nil && allocated(i.channels[ch].nicks[n]) && n in i.nicks)) && (forall a lcChan, b lcChan :: a in i.channels && b in i.channels && a != b ==> i.channels[a].nicks != i.channels[b].nicks)
+//@ pred chanMembers(i *IRCServer) = forall ch lcChan, n lcNick :: ch in i.channels && n in i.channels[ch].nicks ==> i.channels[ch].nicks[n] != nil && allocated(i.channels[ch].nicks[n]) && n in i.nicks
+//@ pred chanReverse(i *IRCServer) = forall ch lcChan, n lcNick :: ch in i.channels && n in i.channels[ch].nicks && n in i.nicks ==> ch in i.nicks[n].Channels
+//@ pred chanNonEmpty(i *IRCServer) = forall ch lcChan :: ch in i.channels ==> (exists n lcNick :: n in i.channels[ch].nicks)
+//@ pred wfChannels(i *IRCServer) = chanShape(i) && chanMembers(i) && chanReverse(i) && chanNonEmpty(i)
 //@ pred msgTime(m *robust.Message) = ite(m.UnixNano == 0, time.Unix(0, m.Id.Id), time.Unix(0, m.UnixNano))
 // every ban carries its compiled pattern
 //@ pred bansOK(c *channel) = forall k int :: 0 <= k && k < len(c.bans) ==> c.bans[k].re != nil
@@ -243,7 +246,8 @@ package ircserver
 //@ func IRCServer.CreateSession
 //@   requires i != nil && wfLocks(i) && wfSessions(i)
 //@   ensures limit: result != nil <==> (i.Config.MaxSessions > 0 && old(len(i.sessions)) >= i.Config.MaxSessions)
-//@   ensures created: result == nil ==> id in i.sessions && i.sessions[id].Id == id && i.sessions[id].auth == auth && i.sessions[id].Nick == "" && !i.sessions[id].loggedIn && !i.sessions[id].Server && !i.sessions[id].Operator && i.sessions[id].LastActivity == timestamp
+//@   ensures created: result == nil ==> id in i.sessions && fresh(i.sessions[id]) && i.sessions[id].Id == id && i.sessions[id].auth == auth && i.sessions[id].Nick == "" && !i.sessions[id].loggedIn && !i.sessions[id].Server && !i.sessions[id].Operator && !i.sessions[id].deleted && i.sessions[id].LastActivity == timestamp && (forall ch lcChan :: !(ch in i.sessions[id].Channels)) && i.sessions[id].lastClientMessageId == 0
+//@   ensures refused: result != nil ==> (forall x robust.Id :: x in i.sessions <==> old(x in i.sessions))
 //@   ensures others: forall x robust.Id :: x != id ==> (x in i.sessions <==> old(x in i.sessions)) && (x in i.sessions ==> i.sessions[x] == old(i.sessions[x]))
 //@   ensures wf: wfSessions(i)
 //@   modifies map[i.sessions]
@@ -288,7 +292,10 @@ package ircserver
 //@   requires base: wfBase(i) && s != nil && replyOK(reply) && msg != nil
 //@   requires sessions: wfSessions(i)
 //@   requires nicks: wfNicks(i)
-//@   requires channels: wfChannels(i)
+//@   requires chanshape: chanShape(i)
+//@   requires chanmembers: chanMembers(i)
+//@   requires chanreverse: chanReverse(i)
+//@   requires channonempty: chanNonEmpty(i)
 //@   requires member: wfMember(i)
 //@   requires owner: wfOwner(i)
 //@   requires session: s.Id in i.sessions && i.sessions[s.Id] == s && !s.deleted
@@ -300,16 +307,28 @@ package ircserver
 //@   ensures base: wfBase(i)
 //@   ensures sessions: wfSessions(i)
 //@   ensures nicks: wfNicks(i)
-//@   ensures channels: wfChannels(i)
+//@   ensures chanshape: chanShape(i)
+//@   ensures chanmembers: chanMembers(i)
+//@   ensures chanreverse: chanReverse(i)
+//@   ensures channonempty: chanNonEmpty(i)
 //@   ensures member: wfMember(i)
 //@   ensures reply: replyOK(reply)
 //@   ensures keeps: forall x robust.Id :: old(x in i.sessions) ==> x in i.sessions && i.sessions[x] == old(i.sessions[x])
 //@   ensures onlyself: forall x robust.Id :: x in i.sessions && i.sessions[x] != s && i.sessions[x].deleted ==> s.Server || s.Operator
 //@   ensures rolekept: forall x robust.Id :: old(x in i.sessions) && old(i.sessions[x].Server) ==> i.sessions[x].Server
-//@   modifies *
+//@   modifies *, !robust.Message
 //@   loopinv rolekept: forall x robust.Id :: old(x in i.sessions) && old(i.sessions[x].Server) ==> i.sessions[x].Server
 //@   loopinv onlyself: forall x robust.Id :: x in i.sessions && i.sessions[x] != s && i.sessions[x].deleted ==> s.Server || s.Operator
-//@   loopinv state: wfMid(i) && wfAuth(i) && wfLogin(i) && replyOK(reply)
+//@   loopinv base: wfBase(i) && replyOK(reply)
+//@   loopinv sessions: wfSessions(i)
+//@   loopinv nicks: wfNicks(i)
+//@   loopinv chanshape: chanShape(i)
+//@   loopinv chanmembers: chanMembers(i)
+//@   loopinv chanreverse: chanReverse(i)
+//@   loopinv channonempty: chanNonEmpty(i)
+//@   loopinv member: wfMember(i)
+//@   loopinv owner: wfOwner(i)
+//@   loopinv auth: wfAuth(i) && wfLogin(i)
 //@   loopinv session: s.Id in i.sessions && i.sessions[s.Id] == s && !s.deleted && (old(s.loggedIn) ==> s.loggedIn)
 //@   loopinv keeps: forall x robust.Id :: old(x in i.sessions) ==> x in i.sessions && i.sessions[x] == old(i.sessions[x])
 
@@ -336,7 +355,7 @@ package ircserver
 //@   ensures reply: result != nil && replyOK(result)
 //@   ensures keeps: forall x robust.Id :: old(x in i.sessions) ==> x in i.sessions && i.sessions[x] == old(i.sessions[x])
 //@   ensures onlyself: forall x robust.Id :: x in i.sessions && i.sessions[x] != i.sessions[old(msg.Session)] && i.sessions[x].deleted ==> i.sessions[old(msg.Session)].Server || i.sessions[old(msg.Session)].Operator
-//@   modifies *
+//@   modifies *, !robust.Message
 
 // ---------------------------------------------------------------------------
 // Handlers that need loop invariants (everything else comes from the template)
@@ -361,7 +380,9 @@ package ircserver
 // The prometheus constructors return non-nil collectors; the variables are assigned by the package
 // initialiser only (checked: post of init).
 //@ globalinv metrics: messagesProcessed != nil && captchasVerified != nil && captchasFailed != nil && captchaChallengesSent != nil
-//@ globalinv regexps: validNickRe != nil && validChannelRe != nil
+//@ globalinv regexps: validNickRe != nil && validChannelRe != nil && nickToLowerReplacer != nil
+// encoding/base64 initialises its exported encodings
+//@ axiom base64: base64.StdEncoding != nil
 
 // Every entry of the command table is a non-nil *ircCommand: the table is written by init functions only,
 // each store is a fresh &ircCommand{...} or a copy of an entry registered earlier (checked structurally on
@@ -379,7 +400,10 @@ package ircserver
 //@   requires base: wfBase(i) && s != nil && replyOK(reply) && msg != nil
 //@   requires sessions: wfSessions(i)
 //@   requires nicks: wfNicks(i)
-//@   requires channels: wfChannels(i)
+//@   requires chanshape: chanShape(i)
+//@   requires chanmembers: chanMembers(i)
+//@   requires chanreverse: chanReverse(i)
+//@   requires channonempty: chanNonEmpty(i)
 //@   requires member: wfMember(i)
 //@   requires owner: wfOwner(i)
 //@   requires session: s.Id in i.sessions && i.sessions[s.Id] == s && !s.deleted && s.Id.Reply == 0
@@ -397,7 +421,7 @@ package ircserver
 //@   ensures member: wfMember(i)
 //@   ensures reply: replyOK(reply)
 //@   ensures keeps: forall x robust.Id :: old(x in i.sessions) ==> x in i.sessions && i.sessions[x] == old(i.sessions[x])
-//@   modifies *
+//@   modifies *, !robust.Message
 
 //@ func IRCServer.generateCaptchaURL
 //@   requires i != nil && i.ConfigMu != nil && s != nil && len(s.auth) >= 8
@@ -430,6 +454,9 @@ package ircserver
 //@     invariant renamed: forall ch lcChan :: seen(ch) && ch in i.channels ==> !(oldNick in i.channels[ch].nicks)
 //@     invariant mine: forall ch lcChan :: ch in s.Channels ==> ch in i.channels && ((seen(ch) && NickToLower(nick) in i.channels[ch].nicks) || (!seen(ch) && oldNick in i.channels[ch].nicks))
 //@     invariant others: wfMemberExcept(i, s)
+//@     invariant reverse: forall ch lcChan, n lcNick :: ch in i.channels && n in i.channels[ch].nicks && n in i.nicks ==> ch in i.nicks[n].Channels
+//@     invariant reverseold: forall ch lcChan :: ch in i.channels && oldNick in i.channels[ch].nicks ==> ch in s.Channels
+//@     invariant nonempty: forall ch lcChan :: ch in i.channels ==> (exists n lcNick :: n in i.channels[ch].nicks)
 
 //@ func IRCServer.cmdJoin
 //@   requires registered: s.loggedIn && !s.Server
@@ -579,3 +606,6 @@ package ircserver
 //@     invariant renamed: forall ch lcChan :: seen(ch) && ch in i.channels ==> !(oldNick in i.channels[ch].nicks)
 //@     invariant mine: forall ch lcChan :: ch in session.Channels ==> ch in i.channels && ((seen(ch) && NickToLower(msg.Params[1]) in i.channels[ch].nicks) || (!seen(ch) && oldNick in i.channels[ch].nicks))
 //@     invariant others: wfMemberExcept(i, session)
+//@     invariant reverse: forall ch lcChan, n lcNick :: ch in i.channels && n in i.channels[ch].nicks && n in i.nicks ==> ch in i.nicks[n].Channels
+//@     invariant reverseold: forall ch lcChan :: ch in i.channels && oldNick in i.channels[ch].nicks ==> ch in session.Channels
+//@     invariant nonempty: forall ch lcChan :: ch in i.channels ==> (exists n lcNick :: n in i.channels[ch].nicks)
